@@ -69,17 +69,27 @@ package keeper
 // verif:pred stored(m, name) := unmarshalIface(kvget(m, host.FullClientStateKey(name)))
 
 // verif:func (Keeper).CreateClient
+// a client is installed only together with a well-formed consensus state of its own type (the proposals validate the
+// client state only)
+//@ ensures [consensus-of-the-clients-type] err == nil ==> clientTypeOf(clientState) == consTypeOf(consensusState)
+//@ ensures [consensus-state-valid] err == nil ==> ncalls("ValidateBasic") == 1 && callsok("ValidateBasic")
+//@ callsite ValidateBasic [of-the-proposed-consensus-state] recv == consensusState
 //@ nopanic
 //@ modifies xibc(ctx)
 //@ callsite Initialize [initialised-as-new] recv == clientState && consState == consensusState && store == k.ClientStore(ctx, chainName)
 //@ callsite SetClientState [installs-proposed-client] chainName == dollar_chainName && dollar_clientState == clientState
 //@ callsite SetClientConsensusState [installs-proposed-consensus] dollar_chainName == chainName && height == latestHeightOf(clientState) && dollar_consensusState == consensusState
-//@ ensures [errors-propagate] ncalls("Initialize") == 1 && (err == nil ==> callsok("Initialize"))
+//@ ensures [errors-propagate] err == nil ==> ncalls("Initialize") == 1 && callsok("Initialize")
 //@ callsite SetClientConsensusState [never-for-a-tss-client] consTypeOf(dollar_consensusState) != exported.TSS
 //@ ensures [consensus-stored-unless-tss] err == nil && consTypeOf(consensusState) != exported.TSS ==> ncalls("SetClientConsensusState") == 1
 //@ ensures [packet-state-kept] packetStateKept(old(xibc(ctx)), xibc(ctx))
 
 // verif:func (Keeper).UpgradeClient
+// a client is installed only together with a well-formed consensus state of its own type (the proposals validate the
+// client state only)
+//@ ensures [consensus-of-the-clients-type] err == nil ==> clientTypeOf(newClientState) == consTypeOf(newConsensusState)
+//@ ensures [consensus-state-valid] err == nil ==> ncalls("ValidateBasic") == 1 && callsok("ValidateBasic")
+//@ callsite ValidateBasic [of-the-proposed-consensus-state] recv == newConsensusState
 //@ nopanic
 //@ modifies xibc(ctx)
 //@ ensures [exists]    err == nil ==> kvhas(old(xibc(ctx)), host.FullClientStateKey(chainName))
@@ -105,6 +115,11 @@ package keeper
 //@ ensures [packet-state-kept]     packetStateKept(old(xibc(ctx)), xibc(ctx))
 
 // verif:func (Keeper).ToggleClient
+// a client is installed only together with a well-formed consensus state of its own type (the proposals validate the
+// client state only)
+//@ ensures [consensus-of-the-clients-type] err == nil ==> clientTypeOf(newClientState) == consTypeOf(newConsensusState)
+//@ ensures [consensus-state-valid] err == nil ==> ncalls("ValidateBasic") == 1 && callsok("ValidateBasic")
+//@ callsite ValidateBasic [of-the-proposed-consensus-state] recv == newConsensusState
 // the new client is initialised on a store that holds no consensus state of the replaced client (consensus states of
 // another type make the BSC / ETH pruning loops fail on every later update: fix recorded in /verif/known_findings.txt)
 //@ callsite Initialize [replaced-client-cleared] forall rev uint64 :: forall n uint64 :: !kvhas(xibc(ctx), host.FullConsensusStateKey(chainName, types.NewHeight(rev, n)))
